@@ -540,7 +540,7 @@ class Engine:
         self.pos += 1
         if i < len(self.prefix):
             b, forced = self.prefix[i]
-            if forced == 'A':
+            if forced == 'A' or forced == 'C':
                 self.flags.append('nondeterministic-replay')
                 self.dead = True
                 return False
@@ -633,13 +633,35 @@ class Engine:
         return SBool(t)
 
     def new_choice(self, name, n):
+        """finite-domain input in range(n): a fresh variable constrained only by its range, so every
+        value is feasible and the case split needs no solver call (pure enumeration)"""
         t = z3.Int(name)
         self.vars.append((name, 'int', t))
-        self._positional(z3.And(t >= 0, t <= n - 1), 'A')
-        for v in range(n - 1):
-            if self.decide(t == v):
-                return v
-        return n - 1
+        if self.dead:
+            return 0
+        i = self.pos
+        self.pos += 1
+        if i < len(self.prefix):
+            v, kind = self.prefix[i]
+            if kind != 'C':
+                self.flags.append('nondeterministic-replay')
+                self.dead = True
+                return 0
+            if i >= self.synced or self.seeded:
+                self.solver.push()
+                self.scopes.append(i)
+                self.solver.add(t == v)
+            self.trace.append((v, 'C'))
+            return v
+        self.stats.decisions += 1
+        for v in range(n - 1, 0, -1):
+            self.stack.append((self.trace + [(v, 'C')], None))
+        self.solver.push()
+        self.scopes.append(i)
+        self.solver.add(t == 0)
+        self.trace.append((0, 'C'))
+        self.stale = True
+        return 0
 
     # -- assertions --------------------------------------------------------------
     def add_assert(self, label, cond, info):
